@@ -19,7 +19,7 @@ Your task: make ONE small source change to ioflo (in {wt}/ioflo/..., not in test
 
 Deliverables, all written into {wt}/OUT/ (create the directory):
   1. patch.diff  - `git -C {wt} diff` of your source change (source files only; unified diff that applies with `git apply` to a clean checkout of the same commit).
-  2. demo.py     - a small self-contained program (run as `/venv/bin/python demo.py` with cwd={wt}, it must do `import sys; sys.path.insert(0, '{wt}')` first and `import collections.abc` before importing ioflo) that exits 0 and prints PASS when the property holds on its scenario and exits 1 and prints FAIL with an explanation when it is violated. It must FAIL with your change applied and PASS on the unchanged code (verify both: use `git stash` / `git stash pop` inside the worktree).
+  2. demo.py     - a small self-contained program (run as `/venv/bin/python demo.py` with cwd={wt}, it must do `import sys; sys.path.insert(0, '{wt}')` first and `import collections.abc` before importing ioflo) that exits 0 and prints PASS when the property holds on its scenario and exits 1 and prints FAIL with an explanation when it is violated. It must FAIL with your change applied and PASS on the unchanged code (verify both; do NOT use `git stash` - the stash is shared with other worktrees of this repository - instead save your change with `git diff > OUT/patch.diff` and toggle it with `git apply -R OUT/patch.diff` and `git apply OUT/patch.diff`).
   3. meta.json   - {{"property": "{pid}", "summary": "<one sentence: what the change does>", "needs": "<what specific input / sequence / interleaving / fault is needed for it to manifest>", "files": ["<changed files>"], "tests_run": "<the exact test command(s) you ran and the result>"}}
 
 Rules:
